@@ -12,6 +12,18 @@ CHECKS = {
    text='Explicit-state BFS over real AnsiString objects (histories of apply/remove over every range with conflicting, equal and multi-parameter settings, plus concat/pad/slice steps; dedup by exact canonical object graph) to depth 2 (quick) / 3 (thorough) on texts of length 1-6; in every state every (start, stop) in ([-L-2..L+2]+None)^2 through v[i:j], clip, AnsiStr slicing, every integer index, step-1 slice objects, in-place clip and iteration is compared with Python slicing of the per-character model, and every result is probed for closedness by appending to it.',
    note='Trusted: mc/model.py abstraction (public ansi_settings_at) and equivalence (multiset + per-effect-group order). Bounds: <=3 live spans, L<=6.',
    technique='explicit-state BFS over operation histories of the real objects with lock-step reference-model comparison'),
+ 'C05': dict(engine='explore', design='4/C05',
+   text='Explicit-state exploration of binary transitions: all ordered pairs (a, b) from two BFS pools of real AnsiString values (depth-2/3 apply/remove/structural histories; b on a different text, plain/rainbow/empty seeds) through a+b, a+=b, join(a,b), join(a,b,c), AnsiStr twins, str operands, every value with itself (same object), and every split point v[:k]+v[k:] of every pool value; each result compared with cells_a+cells_b taken before the call (multiset and per-effect-group precedence), probed for closedness, split results also compared on the reference terminal.',
+   note='Trusted: mc/model.py, mc/refterm.py. Operands with <=3 live spans on texts of length <=3; pairs of histories up to depth 2x2 (quick) / 3x2 (thorough).',
+   technique='explicit-state exploration of operand pairs (BFS pools) with lock-step reference-model comparison'),
+ 'C06': dict(engine='explore', design='4/C06',
+   text='Explicit-state BFS pools of real values (depth 2/3, conflicting/equal/clearing settings, rainbow seeds) x every (start, end) in ([-L-2..L+3]+None)^2 x topmost x 7-11 settings choices: the post-state is compared with the pre-state by the relation the statement gives (text, outside cells, inside multiset, old precedence, bottom/top precedence per effect group, no-op cases by canonical equality) and probed for closedness and self-consistency.',
+   note='Trusted: mc/model.py, mc/refterm.py (effect groups). Raw out-of-range bounds are checked with every settings choice in thorough, one in quick. L<=4, <=3 live spans.',
+   technique='explicit-state BFS over operation histories with a relational (pre/post) reference oracle'),
+ 'C07': dict(engine='explore', design='4/C07',
+   text='Explicit-state BFS pools (as C06, L<=5) x every (start, end) x every selection (None, present/absent/hidden roles, pairs, empty): post-state compared with the deterministic cell model (inside: minus matching codes, order kept; outside: unchanged under multiset + per-group precedence), empty ranges by canonical equality, clear_formatting, AnsiStr twins, closedness/self-check of every post-state.',
+   note='Trusted: mc/model.py. Bounds as in evidence.',
+   technique='explicit-state BFS over operation histories with lock-step reference-model comparison'),
  'C18': dict(engine='langenum', design='4/C18',
    text='Bounded exhaustive enumeration: every code list of length 0..5/6 over 14 codes in three input forms x add_erroneous, every code 0..255, every ordered pair of known codes, every sequence of <=4 parameter groups (complete and incomplete extended colours), and settings_to_dict on every (list<=3, prior list<=2); each reduced state compared with an independent SGR terminal, arguments snapshotted.',
    note='Trusted: mc/refterm.py. Ambiguous lists excluded from the state clause (counted).',
